@@ -30,6 +30,21 @@ func Register(origin string, zero proto.Message, slow SlowFunc) {
 
 func Lookup(name protoreflect.FullName) *Subject { return subjects[name] }
 
+// ExtVar is a generated package-level extension variable (E_Name) together with its Go identifier.
+type ExtVar struct {
+	Package string // Go package name
+	GoName  string
+	Type    protoreflect.ExtensionType
+}
+
+var extVars []ExtVar
+
+func RegisterExt(pkg, goName string, xt protoreflect.ExtensionType) {
+	extVars = append(extVars, ExtVar{Package: pkg, GoName: goName, Type: xt})
+}
+
+func ExtVars() []ExtVar { return extVars }
+
 func All() []*Subject {
 	out := make([]*Subject, 0, len(subjects))
 	for _, s := range subjects {
